@@ -337,33 +337,42 @@ Fixpoint digits_val (acc : Z) (ds : bytes) : Z :=
   match ds with [] => acc | c :: r => digits_val (acc * 10 + (Z.of_N c - 48)) r end.
 Definition int_ok (ip : bytes) : bool :=
   match ip with [] => false | [_] => true | c :: _ => negb (c =? 48)%N end.
-Definition parse_number (bs : bytes) : option (Z * Z) :=
-  let '(neg, r) := match bs with 45%N :: r => (true, r) | _ => (false, bs) end in
-  let sg := if neg then -1 else 1 in
+Definition parse_unsigned (sg : Z) (r : bytes) : option (Z * Z) :=
   let '(ip, r2) := take_digits r in
   if int_ok ip then
     match r2 with
     | [] => Some (sg * digits_val 0 ip, 0)
-    | 46%N :: fr =>
-        let '(fp, r3) := take_digits fr in
-        match fp, r3 with
-        | _ :: _, [] => Some (sg * digits_val (digits_val 0 ip) fp, Z.of_nat (List.length fp))
-        | _, _ => None
-        end
-    | _ => None
+    | c :: fr =>
+        if (c =? 46)%N then
+          let '(fp, r3) := take_digits fr in
+          match fp, r3 with
+          | _ :: _, [] => Some (sg * digits_val (digits_val 0 ip) fp, Z.of_nat (List.length fp))
+          | _, _ => None
+          end
+        else None
     end
   else None.
+Definition parse_number (bs : bytes) : option (Z * Z) :=
+  match bs with
+  | [] => None
+  | c :: r => if (c =? 45)%N then parse_unsigned (-1) r else parse_unsigned 1 bs
+  end.
 
 (* JSON string without escapes: the content between the quotes *)
 Definition plain_char (c : N) : bool := ((32 <=? c) && (c <? 127) && negb (c =? 34) && negb (c =? 92))%N.
 Definition unquote (bs : bytes) : option bytes :=
   match bs with
-  | 34%N :: r =>
-      match rev r with
-      | 34%N :: body' => let body := rev body' in if forallb plain_char body then Some body else None
-      | _ => None
-      end
-  | _ => None
+  | [] => None
+  | q :: r =>
+      if (q =? 34)%N then
+        match rev r with
+        | [] => None
+        | q' :: body' =>
+            if (q' =? 34)%N then
+              let body := rev body' in if forallb plain_char body then Some body else None
+            else None
+        end
+      else None
   end.
 
 (* What a histogram means, independently of the iterators: spans expanded left to right. *)
@@ -405,7 +414,7 @@ Definition spec_neg (h : hist) (ic : Z * Z) : Z * Z * Z * Z :=
   (1, fnegate (spec_bound h (fst ic)), hi', snd ic).
 Definition spec_all (h : hist) : list (Z * Z * Z * Z) :=
   map (spec_neg h) (rev (expand (h_nspans h) (h_nb h) 0))
-  ++ (if fgt (h_zc h) fzero then [(3, fnegate (h_zt h), h_zt h, h_zc h)] else [])
+  ++ (if fne (h_zc h) fzero then [(3, fnegate (h_zt h), h_zt h, h_zc h)] else [])
   ++ map (spec_pos h) (expand (h_pspans h) (h_pb h) 0).
 Definition spec_exposed (h : hist) : list (Z * Z * Z * Z) :=
   filter (fun b => fne (snd b) fzero) (spec_all h).
